@@ -6,11 +6,6 @@ mod verif_demo_c06_xlsb_formula_panics {
         let sheets = vec!["S0".to_string(), "S1".to_string()];
         parse_formula(tokens, &sheets, &[]).map_err(|e| e.to_string())
     }
-    #[test]
-    #[should_panic(expected = "index out of bounds: the len is 485 but the index is 485")]
-    fn verif_demo_xlsb_ptgfunc_iftab_485() {
-        let _ = pf(&[0x21, 0xE5, 0x01]);
-    }
     // PtgFuncVar: FTAB[iftab] is indexed without any check, whatever argc
     #[test]
     #[should_panic(expected = "index out of bounds")]
